@@ -11,5 +11,7 @@ long long t1(_Bool b1, _Bool b2, char c1, char c2, signed char sc1, unsigned cha
   int ai1[8]; char ac1[8]; unsigned short aus1[4]; struct S as1[4]; double ad1[4];
   ll1 = 224UL + EM;
   ll1 = E2 / 0x80000001ul;
+  ll1 = L'0' & ~0177777;
+  ll1 = (50 && 255) + (signed char)255;
   return 0;
 }
